@@ -381,6 +381,56 @@ ORACLES.update({
     "currency_after_other_calls": (currency_after_other_calls, ("C18",)),
 })
 
+# ------------------------------------------------------------------------------------------ blend
+def blend_shared_arrays_and_earlier_results():
+    """blend on triangles whose cells all hold ONE array object (derive_fields with a constant array) honours per-cell
+    weights in every cell; results of earlier blend calls do not change when blend is called again (C16: per-cell convex
+    combination / mixture of the inputs)."""
+    from bermuda import CumulativeCell, Triangle
+    from bermuda.utils import blend
+
+    A, B = np.array([10.0, 20.0, 40.0]), np.array([110.0, 220.0, 340.0])
+    base = Triangle([CumulativeCell(D(2020, 1, 1), _mend(2020, 12), _mend(2020 + k, 12), {"earned_premium": 100.0 + k}) for k in range(4)])
+    ta, tb = base.derive_fields(ultimate=A), base.derive_fields(ultimate=B)
+    n = len(base)
+    w = np.array([k / (n - 1) for k in range(n)])            # 0 .. 1: the last cell is all B, the first all A
+    fails = []
+    st, r = _run(lambda: blend([ta, tb], weights={"a": 1 - w, "b": w}, method="linear"))
+    if st != "ok":
+        fails.append(f"linear blend with per-cell dict weights raised {r!r}")
+    else:
+        for k, c in enumerate(r.cells):
+            exp = (1 - w[k]) * A + w[k] * B
+            if not np.allclose(np.asarray(c["ultimate"], dtype=float), exp, rtol=1e-9, atol=1e-9):
+                fails.append(f"linear blend, cell {k}, weights ({1 - w[k]:.3f}, {w[k]:.3f}): got {np.asarray(c['ultimate']).tolist()}, "
+                             f"the convex combination is {exp.tolist()} (inputs share one array object per triangle)")
+                break
+    st, r = _run(lambda: blend([ta, tb], weights={"a": 1 - w, "b": w}, method="mixture", seed=7))
+    if st == "ok":
+        first, last = np.asarray(r.cells[0]["ultimate"], dtype=float), np.asarray(r.cells[-1]["ultimate"], dtype=float)
+        if not (np.array_equal(first, A) and np.array_equal(last, B)):
+            fails.append(f"mixture blend with weights (1,0) in the first and (0,1) in the last cell: got {first.tolist()} / {last.tolist()}, "
+                         f"must be exactly {A.tolist()} / {B.tolist()}")
+    # results of earlier calls are values, not views of a reused buffer
+    t1 = base.derive_fields(ultimate=lambda c: A + c["earned_premium"])
+    t2 = base.derive_fields(ultimate=lambda c: B - c["earned_premium"])
+    st, r1 = _run(lambda: blend([t1], method="linear"))
+    if st == "ok":
+        snap = _canon(r1.cells)
+        want = _canon(t1.cells)
+        for f in (lambda: blend([t2], method="linear"), lambda: blend([t2, t1], weights=[0.5, 0.5], method="linear"),
+                  lambda: blend([t2], weights=[1.0], method="mixture", seed=1)):
+            _run(f)
+        if _canon(r1.cells) != snap:
+            fails.append("the result of an earlier blend([t1], method='linear') changed when blend was called again "
+                         f"(first cell now {np.asarray(r1.cells[0]['ultimate']).tolist()})")
+        if [np.asarray(c["ultimate"], dtype=float).tolist() for c in r1.cells] != [np.asarray(c["ultimate"], dtype=float).tolist() for c in t1.cells]:
+            fails.append("blend([t1], method='linear') of a single triangle is not that triangle's values in every cell")
+    return fails
+
+
+ORACLES.update({"blend_shared_arrays_and_earlier_results": (blend_shared_arrays_and_earlier_results, ("C16",))})
+
 
 def run_for(ctx, prop):
     """run every sequence oracle relevant to `prop`; report failures as concrete violations"""
